@@ -6,4 +6,6 @@ cd "$(dirname "$0")"
 cd coq
 /venv/bin/python -c "import sys; sys.path.insert(0,\"../harness\"); import common; common.assemble_coqproject()"
 coq_makefile -f _CoqProject -o Makefile.coq
-timeout 3000 make -f Makefile.coq -j16
+# -k: a theory that does not build only affects the properties whose theorem
+# file depends on it; every check rebuilds and reports that itself
+timeout 3000 make -k -f Makefile.coq -j16 || echo "setup: some theory files did not build (the dependent checks will report it)"
